@@ -18,7 +18,7 @@ RULE = (
     "C06 state machine; after every step every live non-negative index (reached by appends, updates, filters, "
     "slices, re-indexing, collapsing, stacking, set updates) is saved and loaded back with the same comparison; "
     "non-trivial = a history that round-trips an index produced by an operation (not only the initial ones). "
-    "fuzz: an Atheris campaign over structured entries (2 000 executions per shard quick, 250 000 thorough)."
+    "fuzz: an Atheris campaign over structured entries (2 000 executions per shard quick, 120 000 thorough)."
 )
 ASSUMPTIONS = [
     "coordinates and common are unsigned and < 2^63 (class docstring and loader comment)",
@@ -114,7 +114,7 @@ def fuzz_runner(sub, tier, seed, shard, nshards, rec):
     os.environ["VFW_FUZZ_MODE"] = "c10"
     fuzzrun.run_campaign(sub, tier, seed, shard, nshards, rec,
                          os.path.join(VERIF, "vfw", "fuzz", "indx_fuzz.py"),
-                         {"quick": 2000, "thorough": 250000}, asan=False)
+                         {"quick": 2000, "thorough": 120000}, asan=False)
 
 
 MEX = {"quick": 1200, "thorough": 60000}
